@@ -526,4 +526,84 @@ func runC08(c *Ctx) {
 	for k := 0; k < c.N; k++ {
 		c.plySpecCase(c.plySpecGen(), "c08.holds.meaning")
 	}
+	// header parser, error and glue branches (model vs ply.ReadHeader / ply.ReadMesh): fixed variants …
+	for _, h := range plyHeaderVariants {
+		data := []byte(h)
+		c.Emit("c08.header", plyHx(data), plyImplReadHeader(data))
+		rs, _ := plyImplReadMesh(data)
+		c.Emit("c08.read", plyHx(data), rs)
+		c.Note("header-variant")
+	}
+	// … and single-token / single-line mutations of generated files
+	for k := 0; k < c.N/2; k++ {
+		data := plyRefEncode(c.plySpecGen())
+		end := bytes.Index(data, []byte("end_header"))
+		if end < 0 {
+			continue
+		}
+		lines := strings.SplitAfter(string(data[:end]), "\n")
+		i := c.Rng.Intn(len(lines))
+		switch c.Rng.Intn(6) {
+		case 0:
+			lines = append(lines[:i], lines[i+1:]...) // drop a line
+		case 1:
+			lines = append(lines[:i+1], lines[i:]...) // duplicate a line
+		case 2:
+			lines[i] = strings.Replace(lines[i], " ", "  \t", 1) // extra white space between words
+		case 3:
+			lines[i] = strings.ToUpper(lines[i]) // keywords / types / names in upper case
+		case 4:
+			ws := strings.Fields(lines[i])
+			if len(ws) > 1 {
+				j := c.Rng.Intn(len(ws))
+				ws = append(ws[:j], ws[j+1:]...) // drop a word
+				lines[i] = strings.Join(ws, " ") + "\n"
+			}
+		default:
+			lines[i] = "\n" + lines[i] // blank line
+		}
+		mut := append([]byte(strings.Join(lines, "")), data[end:]...)
+		c.Emit("c08.header", plyHx(mut), plyImplReadHeader(mut))
+		rs, _ := plyImplReadMesh(mut)
+		c.Emit("c08.read", plyHx(mut), rs)
+		c.Note("header-mutation:" + rs[:2])
+	}
+}
+
+var plyHeaderVariants = []string{
+	"ply\nformat ascii 1.0\nelement vertex 1\nproperty float x\nend_header\n1\n",
+	"plY\nformat ascii 1.0\nend_header\n",
+	"ply \nformat ascii 1.0\nend_header\n",
+	"ply\r\nformat ascii 1.0\r\nelement vertex 0\r\nend_header\r\n",
+	"ply\n\n\nformat ascii 1.0\nelement vertex 0\nend_header\n",
+	"ply\nformat ascii 2.0\nend_header\n",
+	"ply\nformat binary 1.0\nend_header\n",
+	"ply\nformat ascii\nend_header\n",
+	"ply\nformatt ascii 1.0\nend_header\n",
+	"ply\nformat ascii 1.0\nproperty float x\nend_header\n",                          // property before any element: panic
+	"ply\nformat ascii 1.0\nelement vertex 1\nproperty\nend_header\n",                  // contents[1] out of range: panic
+	"ply\nformat ascii 1.0\nelement vertex 1\nproperty half x\nend_header\n1\n",        // unknown type: panic
+	"ply\nformat ascii 1.0\nelement vertex 1\nproperty float x y\nend_header\n1\n",     // ill-formatted scalar
+	"ply\nformat ascii 1.0\nelement vertex 1\nproperty list uchar int\nend_header\n",   // ill-formatted list
+	"ply\nformat ascii 1.0\nelement vertex one\nend_header\n",
+	"ply\nformat ascii 1.0\nelement vertex\nend_header\n",
+	"ply\nformat ascii 1.0\nelement VERTEX 1\nproperty FLOAT X\nend_header\n2.5\n",     // element name / type lowered, property name kept
+	"ply\nformat ascii 1.0\nelement vertex 1\nproperty LIST UCHAR INT Vertex_Indices\nend_header\n",
+	"ply\nformat ascii 1.0\nelement point 1\nproperty float x\nend_header\n1\n",        // no vertex element
+	"ply\nformat ascii 1.0\ncomment   spaced   out  \n  comment indented comment\nelement vertex 0\nend_header\n",
+	"ply\nformat ascii 1.0\nelement vertex 1\nproperty float x\nend_header \n1\n",       // `end_header ` is not the end
+	"ply\nformat ascii 1.0\nelement vertex 1\nproperty float x\nelement face 1\nproperty uchar flags\nend_header\n1\n3\n",       // scalar face property
+	"ply\nformat ascii 1.0\nelement vertex 1\nproperty float x\nelement face 1\nproperty list uchar int other\nend_header\n1\n3 0 0 0\n", // no index list
+	"ply\nformat ascii 1.0\nelement vertex 3\nproperty float x\nelement face 1\nproperty list uchar int vertex_indices\nend_header\n1\n2\n3\n5 0 1 2 0 1\n", // pentagon
+	"ply\nformat ascii 1.0\nelement vertex 3\nproperty float x\nelement face 1\nproperty list uchar int vertex_indices\nend_header\n1\n2\n3\n2 0 1\n",
+	"ply\nformat ascii 1.0\nelement vertex 2\nproperty float x\nproperty float y\nend_header\n1 2\n\n3 4 5\n",                // blank body line, extra token
+	"ply\nformat ascii 1.0\nelement vertex 1\nproperty float x\nproperty float y\nend_header\n1\n",                           // too few tokens: panic
+	"ply\nformat ascii 1.0\nelement vertex 1\nproperty float x\nend_header\nabc\n",                                           // not a number
+	"ply\nformat ascii 1.0\nelement vertex 1\nproperty float x\nproperty float x\nend_header\n1 2\n",                         // duplicate name
+	"ply\nformat ascii 1.0\nelement vertex 1\nproperty float x\nproperty float y\nproperty float z\nproperty float px\nproperty float py\nproperty float pz\nend_header\n1 2 3 4 5 6\n", // two position groups
+	"ply\nformat binary_little_endian 1.0\nelement vertex 1\nproperty short x\nend_header\n\x01\x02",                          // unimplemented binary type: panic
+	"ply\nformat binary_little_endian 1.0\nelement vertex 1\nproperty float red\nproperty float green\nproperty float blue\nproperty uchar alpha\nend_header\n\x00\x00\x80\x3f\x00\x00\x00\x3f\x00\x00\x80\x3e\xff", // W type forced (binary)
+	"ply\nformat ascii 1.0\nelement vertex 1\nproperty float red\nproperty float green\nproperty float blue\nproperty uchar alpha\nend_header\n1 0.5 0.25 255\n",
+	"ply\nformat binary_big_endian 1.0\nelement vertex 1\nproperty float x\nelement face 1\nproperty list uchar uchar vertex_indices\nend_header\n\x3f\x80\x00\x00\x03\x00\x00\x00", // unsupported index type: error ignored
+	"ply\nformat binary_big_endian 1.0\nelement vertex 1\nproperty float x\nelement face 1\nproperty list short int vertex_indices\nend_header\n\x3f\x80\x00\x00\x00\x03", // unsupported count type
 }
